@@ -183,6 +183,8 @@ pub fn header_pairs() -> Vec<(Item, Item)> {
         sig_shared_label(),
         arr(vec![arr(vec![sig_valid()])]),
         arr(vec![sig_valid(), arr(vec![sig_valid2()])]),
+        arr(vec![sig_valid(), u(1)]),
+        arr(vec![sig_valid(), sig_valid2(), sig_valid2()]),
         arr(vec![sig_valid3(), sig_valid(), sig_valid2(), sig_valid4()]),
         arr(vec![]),
         sig_bad_protected(),
@@ -499,6 +501,12 @@ pub fn msg_slots() -> Vec<Item> {
         // four pairwise different elements in no particular order (an index or ordering slip that
         // alternating elements would hide)
         arr(vec![sig_valid3(), sig_valid(), sig_valid4(), sig_valid2()]),
+        // relations between neighbours: equal elements after a different one, an element whose
+        // protected bytes extend the previous one's, an empty entry after a good one
+        arr(vec![sig_valid(), sig_valid2(), sig_valid2()]),
+        arr(vec![sig_valid2(), sigs_malformed_protected()[1].clone()]),
+        arr(vec![sig_valid(), arr(vec![])]),
+        arr(vec![r_valid_nil.clone(), r_nest2.clone(), r_valid_nil.clone()]),
         arr(vec![r_valid_nil.clone(), r_nest2.clone(), r_valid.clone(), rec(bwrap(&map(vec![(u(4), b(b"r4"))])), map(vec![(u(1), i(-3))]), b(b"c4"), None)]),
         arr(vec![r_bad.clone()]),
         arr(vec![r_nest2_bad.clone()]),
